@@ -1563,3 +1563,23 @@ func runC30y(c *Ctx) {
 	}
 	c.Check(okSet, pkg+".updateDatabags#writes-back-what-it-read", ud.Pos(), "st.Set(\"registry-databags\", databags) with the map that was read", "updateDatabags does not write back the map it read from the state")
 }
+
+// runC14y: the rule behind finding F12.
+func runC14y(c *Ctx) {
+	P := c.P
+	pkg := "overlord/snapstate"
+	c.Rule("C14-R9", "L", "checkChangeConflictExclusiveKinds passes over an unready change without a verdict only if it is the change to ignore, or no exclusive change is being started: every other unready change either is exclusive itself or blocks the new exclusive change", 1)
+	fn := P.Func(pkg + ".checkChangeConflictExclusiveKinds")
+	changes := P.FuncObj("overlord/state.(*State).Changes")
+	loops := LoopsOver(fn, VRes(0, ToFn(changes)))
+	if len(loops) != 1 {
+		c.Undecided(pkg+".checkChangeConflictExclusiveKinds#loop", fn.Pos(), fmt.Sprintf("expected one loop over st.Changes(), found %d", len(loops)))
+		return
+	}
+	ready := P.FuncObj("overlord/state.Status.Ready")
+	chgID := P.FuncObj("overlord/state.(*Change).ID")
+	isReady := TrueRes("chg.Status().Ready()", true, 0, ToFn(ready))
+	ignored := Cmp("chg.ID()==ignoreChangeID", VRes(0, ToFn(chgID)), token.EQL, VParam(fn, 2))
+	notExclusive := Cmp("newExclusiveChangeKind==\"\"", VParam(fn, 1), token.EQL, VConstStr(""))
+	c.LatchGated(pkg+".checkChangeConflictExclusiveKinds#unready-change-skipped-only-when-ignored", loops[0], []Clause{{isReady, ignored, notExclusive}})
+}
